@@ -18,6 +18,7 @@ IR (hashable tuples):
  ("sub", base, idx) ("slice", lo, hi, step)
  ("copy", L) ("removeone", L, x) ("appended", L, x)
  ("phi", cond, a, b) ("carried", name, loop) ("acc", name) ("unknown", text)
+ ("lambda", (("bv", param, uid), ...), body)      a lambda / a nested single-return def used as a value
 """
 from __future__ import annotations
 
@@ -37,6 +38,7 @@ class Loop:
     kind: str = "for"   # for | while | comp
     bvals: dict = field(default_factory=dict)
     nguards: int = 0    # number of (atomic) guards in force where the loop statement stands
+    gdepth: int = 0     # number of (flattened) guards in force where the loop starts: a fact's guards[gdepth:] sit inside the loop
 
 
 @dataclass
@@ -344,7 +346,23 @@ class Flow:
         return ("slice", self.ev(n.lower), self.ev(n.upper), self.ev(n.step))
 
     def e_Lambda(self, n):
-        return ("unknown", "lambda")
+        return self._closure(n.args, n.body)
+
+    def _closure(self, a, body):
+        """A function VALUE (a lambda, or a nested `def f(p): return e` -- the same thing with a name): ("lambda", (param, ...), body)
+        with the parameters as bound variables; free names have the value they have where the function is created."""
+        if a.vararg or a.kwarg or a.kwonlyargs or a.posonlyargs:
+            return ("unknown", "lambda")
+        saved = dict(self.env)
+        uid = next(self._uid)
+        params = []
+        for p_ in a.args:
+            bv = ("bv", p_.arg, uid)
+            self.env[p_.arg] = bv
+            params.append(bv)
+        v = self.ev(body)
+        self.env = saved
+        return ("lambda", tuple(params), v)
 
     def e_NamedExpr(self, n):
         v = self.ev(n.value)
@@ -729,7 +747,7 @@ class Flow:
 
     def s_For(self, s):
         it = strip_transparent(self.ev(s.iter))
-        lp = Loop(next(self._uid), it, ast.unparse(s.target), s.lineno, nguards=len(self._guards()))
+        lp = Loop(next(self._uid), it, ast.unparse(s.target), s.lineno, nguards=len(self._guards()), gdepth=len(self._guards()))
         self.all_loops[lp.id] = lp
         assigned = self._carry(s.body, lp)
         pre = dict(self.env)
@@ -840,6 +858,11 @@ class Flow:
         self.block(s.finalbody)
 
     def s_FunctionDef(self, s):
+        body = [b for b in s.body if not (isinstance(b, ast.Expr) and isinstance(b.value, ast.Constant))]
+        if not s.decorator_list and len(body) == 1 and isinstance(body[0], ast.Return) and body[0].value is not None:
+            # `def f(p): return e` used as a value (sort key, callback) is `lambda p: e`
+            self.env[s.name] = self._closure(s.args, body[0].value)
+            return
         self.env[s.name] = ("localfunc", s.name)
 
     def s_ClassDef(self, s):
@@ -1038,6 +1061,8 @@ def show(v, depth=0) -> str:
             return f"({show(v[1])} ++ [{show(v[2])}])"
         if k == "phi":
             return f"phi({show(v[1])}; {show(v[2])}; {show(v[3])})"
+        if k == "lambda":
+            return f"(lambda {', '.join(p_[1] for p_ in v[1])}: {show(v[2])})"
         if k == "carried":
             return f"carried:{v[1]}"
         if k == "acc":
@@ -1315,6 +1340,46 @@ def summarise_appends(flow) -> dict:
             continue
         out[("acc", name)] = ("comp", "list", val, ((bv, base, ()),))
     return out
+
+
+# ------------------------------------------------------------------ accumulators and literal-dict loops, read back as values
+
+def acc_comp(flow, name):
+    """The list a local accumulator holds after `name = []` and ONE `name.append(e)` inside ONE for loop (possibly under ifs, next
+    to other statements): the comprehension `[e for t in it if conds]` it is equal to -- what core._Canon folds when the append
+    is the loop's only statement.  None when the accumulator is built in any other way (the caller then does not understand it)."""
+    inits = [f for f in flow.facts if f.kind == "init" and f.target == name]
+    touch = [f for f in flow.facts if f.target == name and f.kind in ("append", "remove", "mutate", "store", "augstore", "augassign")]
+    if len(inits) != 1 or inits[0].value != ("list", ()) or len(touch) != 1 or touch[0].kind != "append" or touch[0].op != "append":
+        return None
+    a, i0 = touch[0], inits[0]
+    if a.seq < i0.seq or len(a.loops) != len(i0.loops) + 1 or a.loops[:-1] != i0.loops or a.loops[-1].kind != "for":
+        return None
+    lp = a.loops[-1]
+    if any(f.kind == "break" and lp in f.loops for f in flow.facts):
+        return None
+    bv = ("bv", "_a", next(_fresh))
+    m = {("elem", lp.iter, lp.id): bv}
+    val = simp(subst(a.value, m))
+    ifs = tuple(simp(subst(c if pol else ("unop", "Not", c), m)) for c, pol in a.guards[lp.gdepth:])
+    for x in walk((val, ifs)):
+        if isinstance(x, tuple) and x and x[0] in ("elem", "idx", "key", "val", "carried", "after") and x[-1] == lp.id:
+            return None          # depends on the loop other than through its element
+        if isinstance(x, tuple) and x and x[0] in ("acc", "unknown"):
+            return None
+    return ("comp", "list", val, ((bv, lp.iter, ifs),))
+
+
+def expand_dict_loops(f):
+    """A fact inside `for k, v in {literal dict}.items():` stands for one fact per entry of the dict: -> [(index, value)] with the
+    loop's key / value replaced by each entry's (and re-simplified, so f"list_of_{k}" becomes a constant).  A fact in no such loop
+    -> [(f.index, f.value)]."""
+    rows = [{}]
+    for lp in f.loops:
+        it = lp.iter
+        if it[0] == "meth" and it[2] == "items" and not it[3] and it[1][0] == "dict" and it[1][1] and all(k[0] == "const" for k, _ in it[1][1]):
+            rows = [{**r, ("key", it[1], lp.id): k, ("val", it[1], lp.id): v} for r in rows for k, v in it[1][1]]
+    return [(simp(subst(f.index, r)) if f.index is not None else None, simp(subst(f.value, r)) if f.value is not None else None) for r in rows]
 
 
 # ------------------------------------------------------------------ pattern matching
